@@ -246,3 +246,89 @@ GROUND = []
 BOUNDED = [('bounded/dom-model', 'random and exhaustive edit sequences: child order, parent links, sibling navigation, first/last child agree with a list-of-lists model',
             'all sequences of <= 4 out of 14 operations (exhaustive), random sequences of <= 11 operations over 5 elements and a fragment', bounded_model)]
 CLASSES = {}
+
+
+# ---------------------------------------------------------------- deep clones equal but disjoint; normalize merges text, idempotent
+def gen_tree(rng, d, depth=0):
+    n = d.createElement('e%d' % rng.randrange(4))
+    for _ in range(rng.randrange(0, 4) if depth < 3 else 0):
+        if rng.random() < 0.45:
+            n.append(d.createTextNode(rng.choice(['a', 'b c', '', 'xy '])))
+        else:
+            n.append(gen_tree(rng, d, depth + 1))
+    return n
+
+
+def shape(n):
+    if n.nodeType == Node.TEXT_NODE:
+        return ('#', str(n))
+    return (n.nodeName, tuple(shape(c) for c in n.childNodes))
+
+
+def all_nodes(n, acc=None):
+    acc = [] if acc is None else acc
+    acc.append(n)
+    if n.nodeType != Node.TEXT_NODE:
+        for c in n.childNodes:
+            all_nodes(c, acc)
+    return acc
+
+
+def links_ok(n):
+    if n.nodeType == Node.TEXT_NODE:
+        return True
+    return all(c.parentNode is n and links_ok(c) for c in n.childNodes)
+
+
+def check_clone(seed):
+    import random
+    rng = random.Random(seed)
+    d = Document()
+    root = d.createElement('root')
+    t = gen_tree(rng, d)
+    root.append(t)
+    before = shape(t)
+    orig_nodes = all_nodes(t)
+    c = t.cloneNode(True)
+    if shape(c) != before:
+        return False, 'deep clone differs from the original: %r vs %r' % (shape(c), before)
+    if shape(t) != before or not links_ok(root) or all_nodes(t) != orig_nodes and [id(x) for x in all_nodes(t)] != [id(x) for x in orig_nodes]:
+        return False, 'cloning changed the original tree (shape %r, parent links consistent: %r)' % (shape(t), links_ok(root))
+    shared = [x for x in all_nodes(c) if any(x is y for y in orig_nodes)]
+    if shared:
+        return False, 'the deep clone shares %d node(s) with the original, e.g. %r (tree %r)' % (len(shared), shape(shared[0]), before)
+    if not links_ok(c):
+        return False, 'a child of the clone does not name its parent in the clone (tree %r)' % (before,)
+    if any(x.ownerDocument is not d for x in all_nodes(c) if x.nodeType != Node.TEXT_NODE):
+        return False, 'a cloned node belongs to another document'
+    # normalize: adjacent text merged, text content unchanged, idempotent
+    text = c.textContent
+    c.normalize()
+    s1 = shape(c)
+    if c.textContent != text:
+        return False, 'normalize changed the text content: %r -> %r' % (text, c.textContent)
+    for x in all_nodes(c):
+        if x.nodeType != Node.TEXT_NODE:
+            kinds = [y.nodeType == Node.TEXT_NODE for y in x.childNodes]
+            if any(a and b for a, b in zip(kinds, kinds[1:])):
+                return False, 'adjacent text nodes remain after normalize in %r' % (shape(x),)
+    c.normalize()
+    if shape(c) != s1:
+        return False, 'normalize is not idempotent: %r then %r' % (s1, shape(c))
+    return True, ''
+
+
+def bounded_clone(budget, rng):
+    t0, n = time.time(), 0
+    while time.time() - t0 < min(budget, 30) * 0.5 or n < 200:
+        n += 1
+        seed = rng.randrange(10 ** 9)
+        ok, dd = check_clone(seed)
+        if not ok:
+            return False, n, dd, dict(seed=seed)
+    return True, n, ''
+
+
+BOUNDED.append(('bounded/clone-normalize', 'a deep clone has the shape and text of the original, shares no node with it at any depth, leaves the original untouched and has '
+                'consistent parent links; normalize merges adjacent text, keeps the text content and is idempotent',
+                'random trees of depth <= 3 (elements and text nodes incl. empty text), >= 200 trees', bounded_clone))
